@@ -66,6 +66,14 @@ CHECKS["C07"] = dict(
          "and sqrt are parameters; real scores compared with the exact (num, den2) model.",
     design="5 C07", technique="Lean 4 proof (Cauchy-Schwarz) + structural AST facts + score correspondence")
 
+CHECKS["C09"] = dict(
+    text="Theorems: mean of a concatenation = count-weighted mean (any number of parts); for every "
+         "n >= 2 and every draw list (with repetition) the two split masks are disjoint, exhaustive and "
+         "both non-empty; count-weighted mean of half averages = full average; determinism in the draw "
+         "stream; squeeze rule. The random generator and dask are parameters; the splitter's structure "
+         "is read from the AST and driven with a stub generator.",
+    design="5 C09", technique="Lean 4 proof over list model + stub-generator correspondence")
+
 NOT_YET = {}
 
 
